@@ -28,6 +28,10 @@ NORM_SEQIDS = ["chr\u00e9", "chre\u0301", "Chr\u00e9", "chr\u00c9", "chrE\u0301"
 NORM_TYPES = ["caf\u00e9", "cafe\u0301", "Caf\u00e9", "CAF\u00c9", "CAFE\u0301", "cafe", "gene", "Gene", "GENE", "g\u00e8ne",
               "ge\u0300ne"]
 NORM_SOURCES = ["\u00e5", "a\u030a", "\u00c5", "A\u030a", "\u212b", "a", "A"]
+# flavor "strands": every strand value a file may carry ('?' is legal GFF3: relevant but unknown)
+ODD_STRANDS = ["*", "plus", "minus", "0", "1", "+-", "++", "F", "unknown", "\u00e9", "%2B", "+ ", "both"]
+# how a caller may come by an order_by name that is EQUAL TO the literal column name without being the same object
+OB_BUILDS = ["join", "split", "bytes", "subclass", "strip", "concat"]
 ODD_CHARS = [(",", "a comma"), (" ", "a blank"), ("%", "a percent sign"), ("_", "an underscore"),
              ("*", "a wildcard"), ("?", "a wildcard"), ("[", "a wildcard")]
 
@@ -69,6 +73,10 @@ def make_set(seed, n, flavor=None):
         sources = rng.sample(SOURCES, rng.choice([1, 2, 3]))
     scores = rng.sample(SCORES, rng.choice([2, 4, 6]))
     starts = rng.sample(STARTS, rng.choice([3, 5, 8]))
+    strands = ["+", "-", "."]
+    if flavor == "strands":
+        # the legal GFF3 '?' and values a file may carry although the format does not list them; stored verbatim
+        strands = ["+", "-", ".", "?", "?"] + rng.sample(ODD_STRANDS, rng.choice([1, 2, 4]))
     rows, lines = [], []
     for i in range(n):
         s = rng.choice(starts)
@@ -78,7 +86,7 @@ def make_set(seed, n, flavor=None):
         row = {
             "id": "f%d" % i, "file_order": i + 1,
             "seqid": rng.choice(seqids), "source": rng.choice(sources), "featuretype": rng.choice(types),
-            "start": start, "end": end, "score": rng.choice(scores), "strand": rng.choice(["+", "-", "."]),
+            "start": start, "end": end, "score": rng.choice(scores), "strand": rng.choice(strands),
             "frame": rng.choice([".", ".", "0", "1", "2"]),
         }
         attrs = "ID=f%d" % i
@@ -95,7 +103,7 @@ def make_set(seed, n, flavor=None):
         rows.append(row)
         lines.append("\t".join(cols))
     return {"rows": rows, "text": "\n".join(lines) + "\n", "seqids": seqids, "types": types, "starts": starts,
-            "flavor": flavor, "traits": traits(rows)}
+            "flavor": flavor, "traits": traits(rows), "strands": sorted(set(strands))}
 
 
 def nfc(text):
@@ -125,6 +133,11 @@ def traits(rows):
             t.append("%ss that differ only in case stored" % col)
         if any(ord(ch) > 127 for v in vals for ch in v):
             t.append("non-ASCII %s stored" % col)
+    strands = set(r["strand"] for r in rows)
+    if "?" in strands:
+        t.append("strand '?' stored")
+    if strands - set(["+", "-", ".", "?"]):
+        t.append("strand values other than + - . ? stored")
     return t
 
 
@@ -221,6 +234,9 @@ def gen_query(rng, SET, long_ft=False, kinds=None):
         k = 1 if q["ft_form"] == "str" else rng.choice([1, 2, 2, 3])
         q["ft"] = sorted(set(rng.choice(pool) for _ in range(k)))
     q["strand"] = rng.choice([None, None, None, "+", "-", "."])
+    if SET.get("flavor") == "strands" and rng.random() < 0.75:
+        # every strand value present in the data (and, rarely, one that is not)
+        q["strand"] = rng.choice(SET["strands"] + ["?"] + [rng.choice(ODD_STRANDS)] * (rng.random() < 0.15))
     r = rng.random()
     if long_ft:
         r = 0.12 + r * 0.88 if r > 0.05 else r      # nearly always ordered
@@ -233,6 +249,9 @@ def gen_query(rng, SET, long_ft=False, kinds=None):
     else:
         q["order_by"] = rng.sample(M.ORDERABLE, 3)
     q["ob_form"] = rng.choice(["tuple", "tuple", "list"])
+    if q["order_by"] is not None and rng.random() < 0.4:
+        # the names are handed over as strings built at run time (equal to the literal names, not the same objects)
+        q["ob_built"] = rng.choice(OB_BUILDS)
     q["reverse"] = rng.random() < 0.4
     q["limit"] = None
     q["within"] = False
